@@ -534,6 +534,7 @@ def check_C19(ck):
         cases.append(("fr/ser", "ser_fr %x" % v)); exp.append(bs.hex())
         tail = bytes(rng.randrange(256) for _ in range(rng.randrange(0, 5)))
         cases.append(("fr/deser+tail", "deser_fr %s" % (bs + tail).hex())); exp.append("%x 32" % v)
+        cases.append(("fr/chunked-reader", "deser_fr_ch %s %x" % ((bs + tail).hex(), rng.choice([1, 3, 7, 31])))); exp.append("%x 32" % v)
     for v in [R, R + 1, 2 ** 256 - 1]:
         cases.append(("fr/non-reduced", "deser_fr %s" % v.to_bytes(32, "big").hex())); exp.append("ERR:notInField")
     for ln in (list(range(0, 32)) if thorough else [0, 1, 8, 31]):
@@ -545,6 +546,7 @@ def check_C19(ck):
         sx = ",".join("%x" % c for c in x)
         cases.append(("fq12/ser", "ser_fq12 %s" % sx)); exp.append(bs.hex())
         cases.append(("fq12/deser+tail", "deser_fq12 %s" % (bs + b"\x01\x02").hex())); exp.append("%s 576" % sx)
+        cases.append(("fq12/chunked-reader", "deser_fq12_ch %s %x" % ((bs + b"\x01\x02").hex(), rng.choice([1, 5, 47, 49, 100])))); exp.append("%s 576" % sx)
         for ln in ([0, 47, 48, 100, 575] if not thorough else list(range(0, 576, 7)) + [575]):
             cases.append(("fq12/truncated", "deser_fq12 %s" % (bs[:ln].hex() or "-"))); exp.append("ERR:eof")
         k = rng.randrange(12)
@@ -565,6 +567,8 @@ def check_C19(ck):
                     tail = bytes(rng.randrange(256) for _ in range(rng.randrange(0, 4)))
                     cases.append(("%s/deser_%s+tail" % (tag, kind), "%s deser_%s %s %d" % (tag, kind, (bs + tail).hex(), fl))); exp.append("%s %d" % (g.A(P), len(bs)))
                     cases.append(("%s/flag-mismatch" % tag, "%s deser_%s %s %d" % (tag, kind, (bs + bytes(2 * sz)).hex(), 1 - fl))); exp.append("ERR:compressness")
+                    for ch in (1, sz - 1, sz + 1):
+                        cases.append(("%s/chunked-reader" % tag, "%s deser_%s_ch %s %d %x" % (tag, kind, (bs + tail).hex(), fl, ch))); exp.append("%s %d" % (g.A(P), len(bs)))
                 lens = range(0, len(bs)) if thorough else [0, 1, sz - 1, sz, len(bs) - 1]
                 for ln in lens:
                     if ln >= len(bs):
